@@ -1,7 +1,400 @@
-//! C18 — not implemented yet.
-use vcore::Ctx;
+//! C18 — run-time operator evaluation matches the IEEE 1800 reference at
+//! every width, and matches compile-time evaluation.
+//!
+//! Case: a module `Top` with 2–6 input ports (width 1..300, signed or not)
+//! and a handful of outputs, each `assign o = <expression over the inputs>;`
+//! (single operator in the `single` sub-check, nested in `multi`), driven
+//! with 8 corner-biased input vectors.
+//!
+//! Oracles (both independent of the engines):
+//! 1. every simulator engine (`Config::all()`: interpreter, Cranelift JIT,
+//!    `cc`, each ± `disable_ff_opt`, 2- and 4-state) must produce the value of
+//!    the `vdesign` reference evaluator (IEEE 1800 §11, 2-state) for every
+//!    output after every vector; outputs the reference marks unknown (X in
+//!    SV: division by zero, out-of-range select) are skipped and counted;
+//!    4-state engines are compared when their run shows no X/Z;
+//! 2. the same expressions with the values of one vector substituted as
+//!    literals / constants, driving the outputs through `const`s of the
+//!    output types — evaluated by the analyzer at compile time — must give
+//!    the same values.
+//!
+//! On a disagreement the failing output is isolated (a module with that one
+//! output) and re-run on every engine, so that the signature names the
+//! expression that really fails (`<root cause>/<engines>`) and not a
+//! neighbour; the root cause comes from `vdesign::findings::classify`.
 
-pub fn run(_ctx: &Ctx) {
-    println!("INCONCLUSIVE property=C18: check not implemented");
-    std::process::exit(2);
+use std::collections::{BTreeMap, BTreeSet};
+use vcore::{CaseCfg, Ctx, Draw, Outcome, hash_str, json};
+use vdesign::findings;
+use vdesign::*;
+use veryl_simulator::Config;
+
+pub struct Engines {
+    pub fast: Vec<Config>,
+    pub cc: Vec<Config>,
+}
+
+impl Engines {
+    pub fn new() -> Engines {
+        let (fast, cc) = engine_configs();
+        Engines { fast, cc }
+    }
+}
+
+/// engine family of a config label: `interp`, `jit`, `cc` (+`4st`)
+fn family(label: &str) -> String {
+    let base = label.split('+').next().unwrap_or(label).to_string();
+    if label.contains("4st") { format!("{base}4") } else { base }
+}
+
+/// Result of comparing every engine with the reference on one design.
+#[derive(Default)]
+pub struct Verdict {
+    /// output index → engine labels that disagree with the reference (or `!`-suffixed when the engine failed to run)
+    pub fails: BTreeMap<usize, BTreeSet<String>>,
+    /// engine errors / panics that hit the whole design: label → message
+    pub errors: BTreeMap<String, String>,
+    /// first disagreement per (output, engine): description
+    pub details: Vec<String>,
+    pub compared: u64,
+    pub unknown: u64,
+    pub skipped_4state_x: u64,
+    pub comptime_blind: u64,
+    pub jit_compiled: bool,
+}
+
+fn hex(v: &num_bigint::BigUint) -> String {
+    format!("{v:x}")
+}
+
+fn run_engine(a: &Analyzed, c: &Config, stim: &Stimulus) -> Result<Trace, String> {
+    match std::panic::catch_unwind(std::panic::AssertUnwindSafe(|| a.run("Top", c, stim))) {
+        Ok(r) => r,
+        Err(e) => {
+            let msg = if let Some(s) = e.downcast_ref::<&str>() {
+                s.to_string()
+            } else if let Some(s) = e.downcast_ref::<String>() {
+                s.clone()
+            } else {
+                "panic".into()
+            };
+            Err(format!("panic: {msg}"))
+        }
+    }
+}
+
+/// Compare all `configs` and the compile-time evaluation (vector `ct_vec`)
+/// with the reference.
+pub fn judge(design: &Design, text: &str, stim: &Stimulus, rt: &RefTrace, configs: &[Config], ct_vec: Option<usize>, ct_skip: &[bool]) -> Result<Verdict, Rejected> {
+    let a = Analyzed::new(text)?;
+    let mut v = Verdict::default();
+    for c in configs {
+        let label = config_label(c);
+        match run_engine(&a, c, stim) {
+            Err(e) => {
+                v.errors.insert(label, e);
+            }
+            Ok(t) => {
+                if c.use_jit && t.jit_stats.0 > 0 {
+                    v.jit_compiled = true;
+                }
+                if c.use_4state && t.any_xz {
+                    v.skipped_4state_x += 1;
+                    continue;
+                }
+                for (si, (row, rrow)) in t.steps.iter().zip(&rt.steps).enumerate() {
+                    for (oi, (s, r)) in row.iter().zip(rrow).enumerate() {
+                        if r.x {
+                            v.unknown += 1;
+                            continue;
+                        }
+                        v.compared += 1;
+                        if s.value != r.v {
+                            let set = v.fails.entry(oi).or_default();
+                            if set.insert(label.clone()) {
+                                v.details.push(format!(
+                                    "{label}: output {} after vector {si}: engine {} reference {}",
+                                    stim.outputs[oi].name,
+                                    hex(&s.value),
+                                    hex(&r.v)
+                                ));
+                            }
+                        }
+                    }
+                }
+            }
+        }
+    }
+    if let Some(vi) = ct_vec {
+        // compile-time evaluation of the same expressions
+        let (ins, outs) = port_specs(design);
+        let values: Vec<(DeclId, num_bigint::BigUint)> = ins.iter().map(|(id, _)| *id).zip(stim.steps[vi].values.iter().cloned()).collect();
+        let cd = constify(design, &values);
+        let ctext = print_design(&cd);
+        match Analyzed::new(&ctext) {
+            Err(r) => {
+                // an unguarded dynamic select becomes a static out-of-range
+                // select once its index is a constant: outside the domain
+                let oor = r.errors.iter().all(|e| e.0 == "InvalidSelect") && rt.steps[vi].iter().any(|x| x.x);
+                if oor {
+                    v.comptime_blind += 1;
+                } else {
+                    v.errors.insert("comptime".into(), format!("constant form rejected: {r}\n{ctext}"));
+                }
+            }
+            Ok(ca) => {
+                let cstim = Stimulus {
+                    clock: None,
+                    reset: None,
+                    inputs: vec![],
+                    outputs: outs.iter().map(|x| x.1.clone()).collect(),
+                    steps: vec![StimStep {
+                        reset: false,
+                        values: vec![],
+                    }],
+                };
+                let interp = Config::default();
+                match run_engine(&ca, &interp, &cstim) {
+                    Err(e) => {
+                        v.errors.insert("comptime".into(), e);
+                    }
+                    Ok(t) => {
+                        for (oi, (s, r)) in t.steps[0].iter().zip(&rt.steps[vi]).enumerate() {
+                            if r.x {
+                                v.unknown += 1;
+                                continue;
+                            }
+                            if ct_skip.get(oi).copied().unwrap_or(false) {
+                                v.comptime_blind += 1;
+                                continue;
+                            }
+                            v.compared += 1;
+                            if s.value != r.v || !num_traits::Zero::is_zero(&s.xz) {
+                                let set = v.fails.entry(oi).or_default();
+                                if set.insert("comptime".into()) {
+                                    v.details.push(format!(
+                                        "comptime: output {} with vector {vi} as constants: analyzer {} (xz {}) reference {}",
+                                        stim.outputs[oi].name,
+                                        hex(&s.value),
+                                        hex(&s.xz),
+                                        hex(&r.v)
+                                    ));
+                                }
+                            }
+                        }
+                    }
+                }
+            }
+        }
+    }
+    Ok(v)
+}
+
+/// The design reduced to one output (the others become unused variables).
+pub fn isolate(design: &Design, out: DeclId) -> Design {
+    let mut d = design.clone();
+    let top = d.top;
+    let m = &mut d.modules[top];
+    let others: Vec<DeclId> = m.outputs().into_iter().filter(|&o| o != out).collect();
+    m.items.retain(|it| match it {
+        Item::Assign { lhs, .. } => !others.contains(&lhs.decl),
+        _ => true,
+    });
+    m.print_order.clear();
+    for o in others {
+        m.decls[o].kind = DeclKind::Var;
+    }
+    d
+}
+
+fn engines_sig(set: &BTreeSet<String>, errors: &BTreeMap<String, String>) -> String {
+    let mut fams: BTreeSet<String> = set.iter().map(|l| family(l)).collect();
+    for (l, e) in errors {
+        fams.insert(format!("{}!{}", family(l), if e.contains("panic") { "panic" } else { "error" }));
+    }
+    fams.into_iter().collect::<Vec<_>>().join("+")
+}
+
+fn input_vectors(stim: &Stimulus) -> serde_json::Value {
+    json!(
+        stim.steps
+            .iter()
+            .map(|s| stim.inputs.iter().zip(&s.values).map(|(p, v)| format!("{}={}'h{:x}", p.name, p.width, v)).collect::<Vec<_>>())
+            .collect::<Vec<_>>()
+    )
+}
+
+pub fn one_case(d: &mut Draw, eng: &Engines, single: bool, known_rate: u32) -> Outcome {
+    let mut cfg = GenCfg::exprs_only();
+    cfg.known_per_mille = known_rate;
+    let n_out = if single { 3 } else { 1 + d.below(4) as usize };
+    let (g, infos) = gen_expr_design(d, &cfg, n_out, single);
+    let design = &g.design;
+    let text = print_design(design);
+    let stim = gen_stimulus(d, design, 8);
+    let use_cc = !eng.cc.is_empty() && d.chance(1, 8);
+    let ct_vec = d.below_usize(stim.steps.len());
+    let mut configs = eng.fast.clone();
+    if use_cc {
+        configs.extend(eng.cc.iter().cloned());
+    }
+    let rt = reference_trace(design, &stim);
+    let m = design.top();
+    let rhs_of = |out: DeclId| {
+        m.items
+            .iter()
+            .find_map(|it| match it {
+                Item::Assign { lhs, rhs } if lhs.decl == out => Some(rhs),
+                _ => None,
+            })
+            .unwrap()
+    };
+    // compile-time evaluation ignores $signed(<unsigned>) (known finding,
+    // kept visible at the low `known_rate`): the compile-time oracle is
+    // blind for those outputs
+    let ct_skip: Vec<bool> = infos.iter().map(|i| findings::has_signed_cast_of_unsigned(m, rhs_of(i.output)) && !d.chance(known_rate, 1000)).collect();
+    let v = match judge(design, &text, &stim, &rt, &configs, Some(ct_vec), &ct_skip) {
+        Ok(v) => v,
+        Err(r) => {
+            let code = r.errors.first().map(|e| e.0.clone()).unwrap_or_default();
+            return Outcome::skip(format!("generated design rejected by the analyzer ({}:{code})", r.stage));
+        }
+    };
+    if !v.fails.is_empty() || !v.errors.is_empty() {
+        // isolate the first failing output (or, for whole-design errors, every output in turn)
+        let cands: Vec<usize> = if v.fails.is_empty() { (0..infos.len()).collect() } else { v.fails.keys().copied().collect() };
+        for oi in cands {
+            let out = infos[oi].output;
+            let iso = isolate(design, out);
+            let itext = print_design(&iso);
+            let istim = Stimulus {
+                outputs: vec![stim.outputs[oi].clone()],
+                ..stim.clone()
+            };
+            let irt = RefTrace {
+                steps: rt.steps.iter().map(|r| vec![r[oi].clone()]).collect(),
+                ..Default::default()
+            };
+            let mut all = eng.fast.clone();
+            all.extend(eng.cc.iter().cloned());
+            let iv = match judge(&iso, &itext, &istim, &irt, &all, Some(ct_vec), &[ct_skip[oi]]) {
+                Ok(iv) => iv,
+                Err(r) => return Outcome::skip(format!("isolated design rejected ({r})")),
+            };
+            if iv.fails.is_empty() && iv.errors.is_empty() {
+                continue;
+            }
+            let expr = rhs_of(out);
+            let dest = m.decls[out].ty;
+            let set = iv.fails.get(&0).cloned().unwrap_or_default();
+            let root = if set.len() == 1 && set.contains("comptime") && iv.errors.is_empty() && findings::has_signed_cast_of_unsigned(m, expr) {
+                "signed-cast-at-compile-time".to_string()
+            } else {
+                findings::classify(m, expr, dest.w)
+            };
+            let sig = format!("{root}/{}", engines_sig(&set, &iv.errors));
+            let vectors = input_vectors(&istim);
+            let msg = format!(
+                "output {}: {} = {}\nshape {} -> {}{}\n{}\n{}\nengines agreeing with the reference: {}\nvectors: {vectors}\n{itext}",
+                m.decls[out].name,
+                m.decls[out].name,
+                vdesign::print::expr(m, expr),
+                shape(m, expr),
+                if dest.signed { "s" } else { "u" },
+                dest.w,
+                iv.details.join("\n"),
+                iv.errors.iter().map(|(k, e)| format!("{k}: {}", e.lines().next().unwrap_or(""))).collect::<Vec<_>>().join("\n"),
+                all.iter().map(config_label).filter(|l| !set.contains(l) && !iv.errors.contains_key(l)).collect::<Vec<_>>().join(" "),
+            );
+            return Outcome::fail(
+                sig,
+                msg,
+                json!({"veryl": itext, "top": "Top", "vectors": input_vectors(&istim), "comptime_vector": ct_vec,
+                       "expected": irt.steps.iter().map(|r| if r[0].x { "unknown".to_string() } else { format!("{:x}", r[0].v) }).collect::<Vec<_>>(),
+                       "details": iv.details}),
+            );
+        }
+        // fails only together with its neighbours
+        let set: BTreeSet<String> = v.fails.values().flatten().cloned().collect();
+        return Outcome::fail(
+            format!("interference/{}", engines_sig(&set, &v.errors)),
+            format!("outputs disagree only when the expressions share a module:\n{}\n{}\n{text}", v.details.join("\n"), v.errors.iter().map(|(k, e)| format!("{k}: {e}")).collect::<Vec<_>>().join("\n")),
+            json!({"veryl": text, "top": "Top", "vectors": input_vectors(&stim), "details": v.details}),
+        );
+    }
+    let mut classes: Vec<String> = g.classes.iter().cloned().collect();
+    let nt = infos.iter().any(|i| i.max_width > 64 || i.any_signed);
+    for i in &infos {
+        if i.max_width > 128 {
+            classes.push("expr:wider_than_128".into());
+        } else if i.max_width > 64 {
+            classes.push("expr:width_65_128".into());
+        }
+        if i.any_signed {
+            classes.push("expr:signed_operand".into());
+        }
+    }
+    if use_cc {
+        classes.push("engine:cc".into());
+    }
+    if v.unknown > 0 {
+        classes.push("ref:unknown_outputs_skipped".into());
+    }
+    if v.comptime_blind > 0 {
+        classes.push("comptime:blind_for_signed_cast".into());
+    }
+    if v.skipped_4state_x > 0 {
+        classes.push("engine:4state_run_with_x_skipped".into());
+    }
+    for (k, n) in &g.excluded {
+        if *n > 0 {
+            classes.push(format!("excluded:{k}"));
+        }
+    }
+    classes.sort();
+    classes.dedup();
+    Outcome::pass(hash_str(&format!("{text}{:?}", input_vectors(&stim))), nt, classes, format!("{text}// vectors: {}", input_vectors(&stim)))
+}
+
+/// Development aid (`C18_DISCOVER=1`): do not stop at the first failure;
+/// print one example per signature and count them as classes.
+fn discover(o: Outcome) -> Outcome {
+    static SEEN: std::sync::Mutex<BTreeMap<String, u32>> = std::sync::Mutex::new(BTreeMap::new());
+    if std::env::var("C18_DISCOVER").is_err() {
+        return o;
+    }
+    match o {
+        Outcome::Fail(f) => {
+            let mut g = SEEN.lock().unwrap();
+            let n = g.entry(f.signature.clone()).or_insert(0);
+            *n += 1;
+            if *n <= 2 {
+                println!("=== DISCOVERED {}\n{}", f.signature, f.message);
+            }
+            Outcome::pass(hash_str(&f.message), false, vec![format!("FAIL:{}", f.signature)], String::new())
+        }
+        o => o,
+    }
+}
+
+pub fn run(ctx: &Ctx) {
+    let eng = Engines::new();
+    ctx.note("engines", json!(eng.fast.iter().chain(eng.cc.iter()).map(config_label).collect::<Vec<_>>()));
+    // known shapes stay visible at a low rate in `single` only
+    let envn = std::env::var("C18_CASES").ok().and_then(|s| s.parse::<usize>().ok());
+    let n1 = envn.unwrap_or(ctx.scale(700, 20_000));
+    let only = std::env::var("C18_SUB").ok();
+    if only.as_deref() != Some("multi") {
+    ctx.run("single", CaseCfg::cases(n1).choices(3000), |d| discover(one_case(d, &eng, true, 15)));
+    }
+    let n2 = envn.unwrap_or(ctx.scale(700, 20_000));
+    if only.as_deref() != Some("single") {
+    ctx.run("multi", CaseCfg::cases(n2).choices(4000), |d| discover(one_case(d, &eng, false, 0)));
+    }
+    ctx.assume("reference = IEEE 1800-2017 §11 expression semantics for 2-state values as implemented in vdesign::eval (written from the LRM); outputs it marks unknown (X in SV) are not compared");
+    ctx.assume("compile-time evaluation is observed as the value of `const K: <output type> = <expression over constants>` read back through the interpreter");
+    ctx.finish(
+        "exploration",
+        "generated modules of 1-4 outputs `assign o = expr` over 2-6 ports of width 1..300 (signed 1/3), single-operator and nested expressions over every operator, 8 corner-biased vectors, under every Config::all() engine (cc on 1/8 of the designs) and compile-time evaluation with one vector as constants; non-trivial = some operand or result wider than 64 bits or a signed operand; distinct by text + vectors",
+    );
 }
